@@ -13,6 +13,20 @@ impl<T: Copy> Vec<T> {
     pub fn new() -> Self { Vec { buf: [None; CAP], len: 0 } }
     pub fn push(&mut self, t: T) { assert!(self.len < CAP, "stub Vec capacity"); self.buf[self.len] = Some(t); self.len += 1; }
     pub fn pop(&mut self) -> Option<T> { if self.len == 0 { None } else { self.len -= 1; self.buf[self.len] } }
+    // more of the std API, so that a schedule change written with it is decided rather than failing to compile
+    pub fn len(&self) -> usize { self.len }
+    pub fn is_empty(&self) -> bool { self.len == 0 }
+    pub fn retain<F: FnMut(&T) -> bool>(&mut self, mut f: F) { let mut w = 0; let mut r = 0; while r < CAP { if r < self.len { let x = self.buf[r].unwrap(); if f(&x) { self.buf[w] = Some(x); w += 1; } } r += 1; } self.len = w; }
+    pub fn contains(&self, x: &T) -> bool where T: PartialEq { let mut i = 0; let mut r = false; while i < CAP { if i < self.len && self.buf[i].as_ref() == Some(x) { r = true; } i += 1; } r }
+    pub fn dedup(&mut self) where T: PartialEq { let mut w = 0; let mut r = 0; while r < CAP { if r < self.len { let x = self.buf[r].unwrap(); if w == 0 || self.buf[w - 1] != Some(x) { self.buf[w] = Some(x); w += 1; } } r += 1; } self.len = w; }
+}
+#[derive(Clone, Debug)]
+pub struct HashSet<T> { items: Vec<T> }
+impl<T: Copy + PartialEq> Default for HashSet<T> { fn default() -> Self { HashSet { items: Vec::new() } } }
+impl<T: Copy + PartialEq> HashSet<T> {
+    pub fn new() -> Self { Self::default() }
+    pub fn insert(&mut self, t: T) -> bool { if self.items.contains(&t) { false } else { self.items.push(t); true } }
+    pub fn contains(&self, t: &T) -> bool { self.items.contains(t) }
 }
 '''
 HARNESS = r'''
@@ -34,6 +48,29 @@ impl MonotoneFramework for Sym {
     }
 }
 impl From<Sym> for [u8; N] { fn from(s: Sym) -> [u8; N] { s.val } }
+
+/// The situation CannotDerive creates (ir/analysis/derive.rs): items 0..N-2 are allowlisted referrers, item N-1 is a NON-allowlisted neighbour.
+/// Its fact only exists once it has been constrained (before that readers see the default), and nothing depends on it in the reverse map
+/// (generate_dependencies records allowlisted targets only).  The initial work list is built as CannotDerive::initial_worklist builds it:
+/// for every allowlisted item, the item followed by everything it traces - so the neighbour is queued once per referrer and, popped last-in
+/// first-out, is constrained right before each of them.  analyze() must therefore process EVERY queued copy.
+#[derive(Debug)]
+pub struct Lazy { refers: [bool; N], seed: [u8; N], val: [u8; N], known: bool, fact: u8, calls: usize }
+impl MonotoneFramework for Lazy {
+    type Node = u8; type Extra = Lazy; type Output = [u8; N];
+    fn new(e: Lazy) -> Lazy { e }
+    fn initial_worklist(&self) -> Vec<u8> { let mut v = Vec::new(); let mut i = 0; while i < N - 1 { v.push(i as u8); if self.refers[i] { v.push((N - 1) as u8); } i += 1; } v }
+    fn constrain(&mut self, n: u8) -> ConstrainResult {
+        self.calls += 1;
+        let n = n as usize;
+        if n == N - 1 { if self.known { return ConstrainResult::Same; } self.known = true; self.val[n] = self.fact; return if self.fact != 0 { ConstrainResult::Changed } else { ConstrainResult::Same }; }
+        let mut m = self.seed[n]; if self.val[n] > m { m = self.val[n]; }
+        if self.refers[n] && self.known && self.val[N - 1] > m { m = self.val[N - 1]; }
+        if m != self.val[n] { self.val[n] = m; ConstrainResult::Changed } else { ConstrainResult::Same }
+    }
+    fn each_depending_on<F: FnMut(u8)>(&self, _n: u8, _f: F) {}      // referrers do not refer to each other here; the neighbour has no recorded dependants
+}
+impl From<Lazy> for [u8; N] { fn from(s: Lazy) -> [u8; N] { s.val } }
 #[cfg(kani)]
 mod proofs {
     use super::*;
@@ -63,6 +100,17 @@ mod proofs {
         let got = analyze::<Sym>(s);
         let mut i = 0; while i < N { assert!(got[i] == want[i], "work-list result is not the least fixed point"); i += 1; }
     }
+    #[kani::proof] #[kani::unwind(/*UNW*/)]
+    fn every_queued_copy_is_processed_so_late_facts_reach_all_referrers() {
+        let refers: [bool; N] = kani::any(); let seed: [u8; N] = kani::any(); let fact: u8 = kani::any();
+        let mut i = 0; while i < N { kani::assume(seed[i] <= 2); i += 1; } kani::assume(fact <= 2);
+        let got = analyze::<Lazy>(Lazy { refers, seed, val: [0; N], known: false, fact, calls: 0 });
+        let mut i = 0; while i < N - 1 {
+            let want = if refers[i] && fact > seed[i] { fact } else { seed[i] };
+            assert!(got[i] == want, "a referrer of a non-allowlisted item was left with a fact computed before that item had one (the result depends on item numbering)");
+            i += 1; }
+        kani::cover!(refers[0] && refers[1] && fact == 2, "two referrers share the neighbour");
+    }
     #[kani::proof]
     fn constrain_result_bitor_is_join() {
         let a = if kani::any() { ConstrainResult::Changed } else { ConstrainResult::Same };
@@ -91,6 +139,7 @@ def kernel(tier, seed):
     k.harnesses = [
         H('analyze_reaches_least_fixed_point_for_every_initial_order', timeout=1500, weight=3, desc='real analyze() on a symbolic %dx%d graph, seeds <= 2, symbolic initial order: result = least fixed point' % (n, n), sample={'nodes': n, 'graph': 'any', 'order': 'any permutation'}),
         H('twin_with_one_dependency_edge_removed', expect='twin', timeout=1500, weight=3, desc='same with one reverse edge withheld: must fail (witness that the check can see a missing re-queue)'),
+        H('every_queued_copy_is_processed_so_late_facts_reach_all_referrers', timeout=900, desc='real analyze() on the framework shape CannotDerive creates: a non-allowlisted neighbour without recorded dependants, queued once per referrer as CannotDerive::initial_worklist does; every referrer ends with the neighbour\'s fact', sample={'referrers': n - 1, 'facts': '0..2'}),
         H('constrain_result_bitor_is_join', desc='ConstrainResult | and |= are the join', sample='2x2'),
     ]
     k.encoded = [enc('ir/analysis/mod.rs', 'fn analyze, trait MonotoneFramework, enum ConstrainResult + BitOr/BitOrAssign', rd('ir/analysis/mod.rs'))]
